@@ -25,7 +25,7 @@ ASSUMPTIONS = ["patches run on deep copies; the original is snapshotted", "docum
 
 def plan(tier, seed):
     n = 15 if tier == "quick" else 46
-    return [{"n": 600 if tier == "quick" else 15000} for _ in range(n)]
+    return [{"kind": "flags"}] + [{"n": 600 if tier == "quick" else 15000} for _ in range(n)]
 
 
 def edit(doc, parts, what, new=None):
@@ -107,6 +107,16 @@ def check_case(ctx, text, doc, cls):
                 want = edit(doc, parts, "remove")
             r = impl.call(patch.apply, target)
             detail = {"text": text, "parts": list(parts), "pointer": str(ptr.value), "op": what}
+            ptext = str(ptr.value)
+            if r.ok and "\\" not in ptext and not any(isinstance(p, str) and (p[:1] in "#~" or p != p.strip() or (p.lstrip("-").isdigit() and len(p) > 15)) for p in parts) and what in ("test", "remove") and (cls == "flags-history" or ctx.rng.random() < 0.3):
+                # the pointer's string form addresses the same location (names that the pointer syntax
+                # reads differently - leading blanks, markers, over-limit integers - are left to the object route)
+                p2 = getattr(jsonpath.JSONPatch(), what)(*( (ptext, copy.deepcopy(m.obj)) if what == "test" else (ptext,) ))
+                r2 = impl.call(p2.apply, copy.deepcopy(doc))
+                ctx.count("string_form_route")
+                if not r2.ok or not strict_eq(r2.value, want):
+                    ctx.violation("%s-through-the-pointer's-string-form-differs" % what, case, dict(detail, outcome=r2.desc() if not r2.ok else canon(r2.value)[:300]))
+                    return
             if not r.ok:
                 ctx.violation("%s-through-match-pointer-failed:%s" % (what, type(r.exc).__name__), case, dict(detail, error=r.desc()))
                 return
@@ -124,9 +134,29 @@ def check_case(ctx, text, doc, cls):
         ctx.sample({"text": text, "matches": len(ms), "pointers": [str(m.pointer()) for m in ms[:3]]})
 
 
+def flags_history(ctx):
+    """Matches of members whose names contain %XX or \\uXXXX sequences, edited through the
+    pointer's string form by a default patch AFTER differently configured patches saw the same text."""
+    import jsonpath
+    from rt import flag_history, ref_pointer as rp
+
+    flag_history.run(ctx, max_orders=3)
+    doc = {"a%20b": "u1", "a b": "u2", "100%25": {"x%2Fy": "u3", "x/y": "u4"}, "caf%C3%A9": "u5", "café": "u6", "items": [{"100%25": "u7", "100%": "u8"}]}
+    for m in list(jsonpath.finditer("$..*", doc)):
+        text = str(m.pointer())
+        for ue, ud in rp.FLAG_SETTINGS[1:]:
+            impl.call(lambda: jsonpath.JSONPatch(unicode_escape=ue, uri_decode=ud).test(text, 0))
+            impl.call(lambda: jsonpath.JSONPatch([{"op": "test", "path": text, "value": 0}], unicode_escape=ue, uri_decode=ud))
+    check_case(ctx, "$..*", doc, "flags-history")
+    check_case(ctx, "$.*", doc, "flags-history")
+
+
 def run(spec, ctx):
     hooks.install_h2()
     r = ctx.rng
+    if spec.get("kind") == "flags":
+        flags_history(ctx)
+        return
     if spec["shard"] == 0:
         for name in gen.ALL_NAMES:
             doc = {name: {name: ["u1", {name: "u2"}], "k": "u3"}, "arr": [{name: "u4"}, "u5"], "sib": "u6"}
@@ -151,4 +181,7 @@ def finalize(m, tier):
 
 
 def replay(case, ctx):
+    if case.get("flags") or case.get("class") == "flags-history":
+        flags_history(ctx)
+        return
     check_case(ctx, case["text"], case["doc"], case.get("class", "replay"))
